@@ -37,6 +37,8 @@ const (
 	aList           // an immutable list of known values (strings.Split of a constant)
 	aElemRef        // address of element C (int) of the list held in L
 	aCell           // address of a variable captured by a function literal (cell Idx of the evaluator)
+	aArr            // address of a local array (the backing store of a slice literal): array Idx of the evaluator
+	aArrElem        // address of element C (int) of the local array Idx
 )
 
 type aval struct {
@@ -71,6 +73,10 @@ func (a aval) String() string {
 		return fmt.Sprintf("ptr#%d", a.Idx)
 	case aCell:
 		return fmt.Sprintf("cell#%d", a.Idx)
+	case aArr:
+		return fmt.Sprintf("array#%d", a.Idx)
+	case aArrElem:
+		return fmt.Sprintf("array#%d[%s]", a.Idx, a.C.ExactString())
 	case aFieldRef:
 		return fmt.Sprintf("field#%d.%s", a.Idx, a.C.ExactString())
 	case aConst:
@@ -137,6 +143,7 @@ type tagEval struct {
 	makeMapHook  func(mm *ssa.MakeMap) (aval, bool)
 	heap         map[int64]map[int]aval
 	cells        map[int64]aval // variables captured by function literals
+	arrays       map[int64][]aval // local arrays (slice literals)
 	nextObj      int64
 	heapForked   bool
 	// unevaluated counts calls to library functions with a body that were not followed
@@ -558,6 +565,11 @@ func (te *tagEval) run(fr *frame, b *ssa.BasicBlock, pred *ssa.BasicBlock, depth
 							fr.env[x] = v
 						}
 					}
+					if xv.K == aArrElem {
+						if k, ok := constant.Int64Val(xv.C); ok && k >= 0 && int(k) < len(te.arrays[xv.Idx]) {
+							fr.env[x] = te.arrays[xv.Idx][k]
+						}
+					}
 					if xv.K == aFieldRef {
 						f, _ := constant.Int64Val(xv.C)
 						if v, ok := te.heap[xv.Idx][int(f)]; ok {
@@ -591,6 +603,11 @@ func (te *tagEval) run(fr *frame, b *ssa.BasicBlock, pred *ssa.BasicBlock, depth
 			case *ssa.Slice:
 				// s[lo:hi] of a constant string with constant bounds
 				xv := te.val(fr, x.X)
+				if xv.K == aArr && x.Low == nil && x.High == nil {
+					// a slice literal: the elements stored so far
+					fr.env[x] = aval{K: aList, L: append([]aval{}, te.arrays[xv.Idx]...)}
+					continue
+				}
 				if xv.K == aConst && xv.C != nil && xv.C.Kind() == constant.String {
 					str := constant.StringVal(xv.C)
 					lo, hi := 0, len(str)
@@ -621,6 +638,20 @@ func (te *tagEval) run(fr *frame, b *ssa.BasicBlock, pred *ssa.BasicBlock, depth
 						fr.env[x] = te.newObj(nil)
 					}
 				}
+				if at, isArr := x.Type().Underlying().(*types.Pointer).Elem().Underlying().(*types.Array); isArr && at.Len() <= 16 {
+					// the backing array of a slice literal
+					if te.arrays == nil {
+						te.arrays = map[int64][]aval{}
+					}
+					te.nextObj++
+					elems := make([]aval, at.Len())
+					for i := range elems {
+						elems[i] = zeroAval(at.Elem())
+					}
+					te.arrays[te.nextObj] = elems
+					fr.env[x] = aval{K: aArr, Idx: te.nextObj}
+					continue
+				}
 				if _, isStruct := x.Type().Underlying().(*types.Pointer).Elem().Underlying().(*types.Struct); !isStruct && x.Heap {
 					// a variable captured by a function literal: a cell of its own
 					if te.cells == nil {
@@ -642,6 +673,12 @@ func (te *tagEval) run(fr *frame, b *ssa.BasicBlock, pred *ssa.BasicBlock, depth
 					fr.env[x] = aval{K: aFieldRef, Idx: bv.Idx, C: constant.MakeInt64(int64(x.Field))}
 				}
 			case *ssa.IndexAddr:
+				if lv := te.val(fr, x.X); lv.K == aArr {
+					if iv := te.val(fr, x.Index); iv.K == aConst && iv.C != nil && iv.C.Kind() == constant.Int {
+						fr.env[x] = aval{K: aArrElem, Idx: lv.Idx, C: iv.C}
+					}
+					continue
+				}
 				if lv := te.val(fr, x.X); lv.K == aList {
 					if iv := te.val(fr, x.Index); iv.K == aConst && iv.C != nil && iv.C.Kind() == constant.Int {
 						fr.env[x] = aval{K: aElemRef, C: iv.C, L: lv.L}
@@ -695,6 +732,10 @@ func (te *tagEval) run(fr *frame, b *ssa.BasicBlock, pred *ssa.BasicBlock, depth
 					te.heap[av.Idx][int(f)] = te.val(fr, x.Val)
 				} else if av.K == aCell {
 					te.cells[av.Idx] = te.val(fr, x.Val)
+				} else if av.K == aArrElem {
+					if k, ok := constant.Int64Val(av.C); ok && k >= 0 && int(k) < len(te.arrays[av.Idx]) {
+						te.arrays[av.Idx][k] = te.val(fr, x.Val)
+					}
 				}
 				if te.storeObs != nil {
 					te.storeObs(x, te.val(fr, x.Val), func(v ssa.Value) aval { return te.val(fr, v) })
